@@ -62,4 +62,9 @@ def lowerBound (sched : Sched) : Option Int := do
 /-- `get_max_allowed_time` -/
 def maxAllowedTime (sched : Sched) : Int := (sched.map sumDur).sum
 
+/-- the array `utils.get_schedule_array` builds from the instance: per job the (machine, current
+duration) pairs in operation order -/
+def schedOf (orc : Oracle) (r : Rng) (inst : Instance) : Sched :=
+  inst.jobs.map fun j => j.ops.map fun o => (o.machine, o.dur.cur orc r)
+
 end JSL
